@@ -107,7 +107,7 @@ def execute(dev):
                 for comp in gg.components:
                     m = comp.getComponentInfo()[1]
                     scale = max(scale, abs(m[0]) + abs(m[2]), abs(m[1]) + abs(m[3]))
-        delta = 2.0 * scale + tol
+        delta = common.unit_tol(cfg) * scale + tol
         # --- every source outline placed exactly once, nothing else ------------------
         if fmt == "glyf" and len(placed) == 1 and len(src) > 1 and not font["glyf"][name].isComposite():
             # the components were decomposed into one simple glyph (a component scale beyond what a
@@ -138,6 +138,9 @@ def execute(dev):
                     if j in used:
                         continue
                     d = paths.hausdorff(sp, pp)
+                    if j == i and d <= delta + (paths.spacing(sp) + paths.spacing(pp)) / 2:
+                        best = (d, j)  # congruent outlines may coincide: the counterpart in the same position wins a tie
+                        break
                     if best is None or d < best[0]:
                         best = (d, j)
                 allowed = delta + (paths.spacing(sp) + paths.spacing(placed[best[1]][0])) / 2 if best else 0
@@ -153,8 +156,9 @@ def execute(dev):
         own = paths.glyph_path(gs, name)
         probes = common.region_probes(cfg, adv, user, 20)
         extra = 0
+        zero_area = abs(own.area) < 1.0  # e.g. the two-point extents contour of a COLRv0 base glyph: a probe may sit exactly on it
         for p in probes:
-            if own.contains(p):
+            if not zero_area and own.contains(p):
                 refs = picture.stencil(lambda q: ref_at(q), p, delta)
                 if all(r[3] == 0 for r in refs):
                     extra += 1
@@ -188,7 +192,7 @@ def execute(dev):
                         out.append(bad("C03.base-bounds", f"{name}: base glyph has no extents but layers span {tuple(round(v) for v in u)}"))
                 else:
                     pr = max(bb[0] - u[0], bb[1] - u[1], u[2] - bb[2], u[3] - bb[3])
-                    if pr > 1.0 * scale + 0.01:
+                    if pr > 1.5 * scale + 0.01:  # every component offset and every point is rounded on its own
                         out.append(bad("C03.base-bounds", f"{name}: layers protrude {pr:.1f} units beyond the base glyph's bounds {bb}"))
     if not out:
         out.append(ok("C03.ok", f"{fmt}:image{image_glyphs}:{common.graph_fingerprint(font) if fmt != 'glyf' else 'glyf'}"))
